@@ -378,8 +378,10 @@ def run_impl(cfg, ops, script, choices=(), replies=(), make_client=None, peer=No
         except BaseException as e:  # noqa
             results.append(("e", core.exn_name(e)))
         sk = getattr(cl, "sock", None)
-        world.bounds.append((len(world.trace), sk.sid if sk is not None else None))
+        world.bounds.append((len(world.trace), getattr(sk, "sid", None)))
     sock = getattr(cl, "sock", None)
+    if not hasattr(sock, "sid"):
+        sock = None
     return (results, [tuple(e) for e in world.trace], (sock.sid if sock is not None else None),
             len(world.script) - world.pos, max(0, len(world.choices) - world.cpos),
             bytes(sock.avail) if sock is not None else b"", world)
